@@ -880,6 +880,12 @@ def main(tier):
         for r in rs:
             if r[0] != "ok":
                 excs[r[1]] = excs.get(r[1], 0) + 1
+    try:
+        from harness.tr import c05 as _tr
+        sf, go = _tr.lowering_flags(common.REPO)
+        rep.coverage["source_shapes"] = {"lower_skip_false_guard": sf, "lower_guard_outside": go}
+    except Exception as ex:  # noqa: BLE001 - already reported by proof_stage
+        rep.coverage["source_shapes"] = "unrecognised: %s" % type(ex).__name__
     rep.coverage.update(
         evaluations=sum(len(rs) for rs in results), phases=len(cases), wellformed_phases_checked_by_oracle=n_wf,
         distinct_nontrivial=distinct,
